@@ -181,7 +181,12 @@ func TestVerifRows(t *testing.T) {
 	for _, d := range dests {
 		for _, cols := range colSets {
 			for _, nrows := range []int{0, 1, 3} {
-				for _, strict := range []bool{true, false} {
+				for _, strictPre := range []int{0, 1, 2, 3} {
+					// strictPre bit 0: strict mode; bit 1: (slices) the destination already holds an element
+					strict, prefilled := strictPre&1 == 1, strictPre&2 == 2
+					if prefilled && !d.slice {
+						continue
+					}
 					if !d.tagged && fmt.Sprint(cols) != "[a b c]" && len(cols) >= 3 {
 						continue // untagged: positional, columns == fields, declared order only
 					}
@@ -199,6 +204,13 @@ func TestVerifRows(t *testing.T) {
 					db := f.open()
 					conn := NewConnFromDB(db)
 					v := d.mk()
+					pre := 0
+					if prefilled {
+						// e.g. pages accumulated into one slice, or a reused destination
+						sv := reflect.ValueOf(v).Elem()
+						sv.Set(reflect.Append(sv, reflect.Zero(sv.Type().Elem())))
+						pre = 1
+					}
 					var err error
 					var pan any
 					func() {
@@ -215,8 +227,8 @@ func TestVerifRows(t *testing.T) {
 						}
 					}()
 					db.Close()
-					in := fmt.Sprintf("dest=%s columns=%v rows=%d strict=%v", d.name, cols, nrows, strict)
-					class := fmt.Sprintf("%s/cols=%d/rows=%d/strict=%v/err=%v", d.name, len(cols), nrows, strict, err != nil)
+					in := fmt.Sprintf("dest=%s columns=%v rows=%d strict=%v prefilled=%v", d.name, cols, nrows, strict, prefilled)
+					class := fmt.Sprintf("%s/cols=%d/rows=%d/strict=%v/prefilled=%v/err=%v", d.name, len(cols), nrows, strict, prefilled, err != nil)
 					c.Eval(class, func() any { return map[string]any{"case": in, "error": fmt.Sprint(err), "dest": fmt.Sprintf("%+v", reflect.ValueOf(v).Elem().Interface())} })
 					if pan != nil {
 						c.Violation(in, "panic", fmt.Sprint(pan))
@@ -246,11 +258,13 @@ func TestVerifRows(t *testing.T) {
 					var elems []reflect.Value
 					rv := reflect.ValueOf(v).Elem()
 					if d.slice {
-						if rv.Len() != nrows {
-							c.Violation(in, "row count", fmt.Sprintf("%d elements for %d rows", rv.Len(), nrows))
+						// (whether rows are appended to what the destination held or replace it is
+						// not stated: the rows read are the last nrows elements either way)
+						if rv.Len() != nrows+pre && rv.Len() != nrows {
+							c.Violation(in, "row count", fmt.Sprintf("%d elements for %d rows (destination held %d before)", rv.Len(), nrows, pre))
 							continue
 						}
-						for i := 0; i < rv.Len(); i++ {
+						for i := rv.Len() - nrows; i < rv.Len(); i++ {
 							elems = append(elems, rv.Index(i))
 						}
 					} else {
